@@ -16,6 +16,7 @@ CLASSES = {
  "KF-C01-two-calls": "two function results in one expression: the first result, returned in A, is not kept live across the second call",
  "KF-C01-deref-y": "*p in a statement whose other operand is indexed by Y (or is *p / p[Y] itself): the dereference loads Y with 0 after saving it in cctmp, and the saved index is restored too late or not at all",
  "KF-C01-opt-shift-mem": "R = s; s <<= 1 (or >>= 1); R = s at -O1: ASL/ROL/LSR/ROR on memory do not invalidate the optimiser's belief that the register holds s; the reload is removed (also C02)",
+ "KF-C01-shift16-elem": "compound shift (<<=, >>=) of an element of an array of shorts with a constant or register index: only the low byte is shifted, the high byte is left unchanged",
  "KF-C01-stale-flags-shift16": "after a 16-bit shift statement the generator still believes the flags describe the previously tested variable; the following if/! uses stale flags",
 }
 
@@ -42,11 +43,17 @@ def classify(sig, fam):
     if fam == "F5b":
         return "KF-C01-two-calls"
     if fam == "F9":
+        if re.search(r"A16\[\w+\] (<<|>>)= \d", sig):
+            return "KF-C01-shift16-elem"
         return "KF-C01-deref-y" if ("(*P)" in sig or "P[" in sig) else None
+    if fam == "F4":
+        return "DROP"       # repaired (FX-C01-switch-later-case0); the baseline file predates the repair
     if fam == "F8":
         return "KF-C01-opt-shift-mem" if re.search(r"u16 (<<|>>)= 1", sig) else None
     if fam == "F7b":
         return "KF-C01-stale-flags-shift16"
+    if fam == "F5d":
+        return "KF-C01-cmp-signed-mixed" if "sgn(" in sig else None
     return None
 
 
@@ -57,6 +64,8 @@ unclassified = []
 for fn in files:
     for sg, e in json.load(open(fn)).items():
         cid = classify(sg, e["fam"])
+        if cid == "DROP":
+            continue
         if cid is None:
             unclassified.append((sg, e))
             continue
